@@ -827,4 +827,22 @@ Section Expr.
     unfold expression_block, to_block1. rewrite block_split_snoc. cbn [fst snd].
     rewrite (bind_ok _ _ _ _ _ H1), (bind_ok _ _ _ _ _ Hv). reflexivity.
   Qed.
+
+  (* the same under an environment: the body of a function whose parameters have base types *)
+  Theorem complete_block_env E0 ss e t f s :
+    ty_block1 E0 ss e = Some t -> side_block ss e = true -> NoDup (defs ss) ->
+    (max_depth ss e < S f)%nat -> wf s -> env_good E0 s -> (forall x, In x (defs ss) -> fresh s x) ->
+    exists v s', expression_block G (afix (S (S f))) sp (to_block1 sp ss e) ctx s = Ok ((None, Some v), s') /\
+                 wf s' /\ head s' v = Some (bty_head t).
+  Proof.
+    intros Ty Sd Nd Hf W EG0 Fr. unfold ty_block1 in Ty. destruct (ty_stmts1 E0 ss) as [E'|] eqn:Tys; [|discriminate].
+    unfold side_block in Sd. apply andb_true_iff in Sd as [Sds Sde].
+    destruct (complete_stmts f ss E0 E' Tys Sds (fun st Hin => Nat.le_lt_trans _ _ _ (max_depth_stmt ss e st Hin) Hf) Nd s W EG0 Fr)
+      as (s1 & H1 & St1 & EG1 & N1).
+    destruct (complete_expr e E' t Ty Sde (S (S f)) s1 ltac:(pose proof (max_depth_expr ss e); lia) (step_wf _ _ St1) EG1)
+      as (v & s2 & Hv & (St2 & Vv & _ & _)).
+    exists v, s2. split; [|split; [exact (step_wf _ _ St2)|exact (proj2 Vv)]].
+    unfold expression_block, to_block1. rewrite block_split_snoc. cbn [fst snd].
+    rewrite (bind_ok _ _ _ _ _ H1), (bind_ok _ _ _ _ _ Hv). reflexivity.
+  Qed.
 End Expr.
